@@ -1161,6 +1161,57 @@ def _s_dev(tr, s, rest, env, tail):
         return tr.wrap(ek + ex, f'let {dn} := dict_append {tk} {tx} {dn} in {tr.T(rest, env, tail)}')
 
 
+# ---- helpers.flatten / helpers.nest_level (C16): recursive functions, translated with the recursive call as a parameter
+_HL_ISLIST = ("BoolOp(op=And(), values=[Call(func=Name(id='isinstance'), args=[Name(id='x'), Tuple(elts=[Name(id='list'), Name(id='tuple')])], "
+              "keywords=[]), UnaryOp(op=Not(), operand=Call(func=Name(id='isinstance'), args=[Name(id='x'), Tuple(elts=[Name(id='str'), "
+              "Name(id='bytes')])], keywords=[]))])")
+
+
+def _h_hl(tr, e, env):
+    d = dump(e)
+    if d == _HL_ISLIST:
+        return [], '(is_grp x)'          # tuples / strings are not items of the model
+    if isinstance(e, ast.Call) and isinstance(e.func, ast.Name) and not e.keywords:
+        if e.func.id == 'isinstance' and len(e.args) == 2 and isinstance(e.args[0], ast.Name) and dump(e.args[1]) == "Name(id='list')":
+            return [], f'(is_grp {cname(e.args[0].id)})'
+        if e.func.id == env.meth and len(e.args) == 1 and isinstance(e.args[0], ast.Name):
+            v = env.fresh('rec')         # the recursive call
+            arg = cname(e.args[0].id)
+            return [(v, f'(rec__ {"(as_list " + arg + ")" if env.meth == "flatten" else arg})')], v
+        if (e.func.id == 'max' and len(e.args) == 1 and isinstance(e.args[0], ast.GeneratorExp) and len(e.args[0].generators) == 1
+                and isinstance(e.args[0].generators[0].iter, ast.Name) and isinstance(e.args[0].generators[0].target, ast.Name)
+                and not e.args[0].generators[0].ifs):
+            g = e.args[0].generators[0]
+            ee, te = tr.E(e.args[0].elt, env)
+            vs, v = env.fresh('vals'), env.fresh('max')
+            inner = tr.wrap(ee, f'ret {te}')
+            return [(vs, f'mapM (fun {cname(g.target.id)} => {inner}) (as_list {cname(g.iter.id)})'), (v, f'(max_of {vs})')], v
+
+
+def translate_helpers(src_dir: str) -> str:
+    global METHODS, CFG_ATTRS, STATE_ATTRS, ORACLES, CFG_TYPE, LOCAL_ELT, EXTRA_PARAMS, MONAD, EXPR_HOOKS, STMT_SKIP, RECEIVERS, STMT_HOOKS
+    saved = (METHODS, CFG_ATTRS, STATE_ATTRS, ORACLES, CFG_TYPE, LOCAL_ELT, EXTRA_PARAMS, MONAD, EXPR_HOOKS, STMT_SKIP, RECEIVERS, STMT_HOOKS)
+    out = [PURE_PREAMBLE % ('helpers.py', ' Writers.Device', 'AeState')]
+    try:
+        mod = ast.parse(pathlib.Path(src_dir, 'helpers.py').read_text())
+        funs = [n for n in mod.body if isinstance(n, ast.FunctionDef) and n.name in ('flatten', 'nest_level')]
+        if len(funs) != 2:
+            raise Unsupported('helpers.py: flatten / nest_level not found')
+        tr = Tr(ast.ClassDef(name='helpers', bases=[], keywords=[], body=funs, decorator_list=[]))
+        CFG_ATTRS, STATE_ATTRS, ORACLES = set(), {}, {}
+        CFG_TYPE, LOCAL_ELT, MONAD = 'unit', {'flatten': {'flat': 'item'}}, 'MI'
+        EXPR_HOOKS, STMT_SKIP, RECEIVERS, STMT_HOOKS = [_h_hl], [], {'self'}, []
+        for name, sig, rty, rec in (('flatten', [('items', 'list item')], 'list item', 'list item -> MI (list item)'),
+                                    ('nest_level', [('lst', 'item')], 'Z', 'item -> MI Z')):
+            METHODS = {name: ('method', sig, rty)}
+            EXTRA_PARAMS = f'(rec__ : {rec}) '
+            out.append(tr.method(name))
+            out.append('\n')
+    finally:
+        METHODS, CFG_ATTRS, STATE_ATTRS, ORACLES, CFG_TYPE, LOCAL_ELT, EXTRA_PARAMS, MONAD, EXPR_HOOKS, STMT_SKIP, RECEIVERS, STMT_HOOKS = saved
+    return ''.join(out)
+
+
 def translate_device(src_dir: str) -> str:
     global METHODS, CFG_ATTRS, STATE_ATTRS, ORACLES, CFG_TYPE, LOCAL_ELT, EXTRA_PARAMS, MONAD, EXPR_HOOKS, STMT_SKIP, RECEIVERS, STMT_HOOKS
     saved = (METHODS, CFG_ATTRS, STATE_ATTRS, ORACLES, CFG_TYPE, LOCAL_ELT, EXTRA_PARAMS, MONAD, EXPR_HOOKS, STMT_SKIP, RECEIVERS, STMT_HOOKS)
@@ -1312,6 +1363,8 @@ def main(argv):
                 name, text = g, translate_writers(str(src_dir))
             elif g == 'SrcAe.v':
                 name, text = g, translate_append_extend(str(src_dir))
+            elif g == 'SrcHl.v':
+                name, text = g, translate_helpers(str(src_dir))
             elif g == 'SrcDev.v':
                 name, text = g, translate_device(str(src_dir))
             elif g == 'SrcFc.v':
